@@ -309,6 +309,16 @@ func (v *Val) mapToGo() any {
 			if g := v.M[0][1].ToGo(); g != nil {
 				vt = reflect.TypeOf(g)
 			}
+			// an EMPTY typed container says nothing about its element type (it is rebuilt with the default,
+			// string): take the type from the first value that has entries, and give the empty ones that type
+			for _, kv := range v.M {
+				if e := kv[1]; (e.Kind == "m" && len(e.M) > 0) || (e.Kind == "l" && len(e.L) > 0) {
+					if g := e.ToGo(); g != nil {
+						vt = reflect.TypeOf(g)
+					}
+					break
+				}
+			}
 		}
 	}
 	if v.NilC && len(v.M) == 0 {
@@ -318,6 +328,7 @@ func (v *Val) mapToGo() any {
 	for _, kv := range v.M {
 		k := kv[0].ToGo()
 		e := kv[1].ToGo()
+		cv := kv[1]
 		kv := reflect.ValueOf(k)
 		if k == nil {
 			kv = reflect.Zero(kt)
@@ -325,6 +336,17 @@ func (v *Val) mapToGo() any {
 		ev := reflect.ValueOf(e)
 		if e == nil {
 			ev = reflect.Zero(vt)
+		}
+		if c := cv; e != nil && !ev.Type().AssignableTo(vt) && ((c.Kind == "m" && len(c.M) == 0 && vt.Kind() == reflect.Map) || (c.Kind == "l" && len(c.L) == 0 && vt.Kind() == reflect.Slice)) {
+			// the empty container of the siblings' type (nil stays nil)
+			switch {
+			case c.NilC:
+				ev = reflect.Zero(vt)
+			case vt.Kind() == reflect.Map:
+				ev = reflect.MakeMap(vt)
+			default:
+				ev = reflect.MakeSlice(vt, 0, 0)
+			}
 		}
 		if !kv.Type().AssignableTo(kt) || !ev.Type().AssignableTo(vt) {
 			panic(fmt.Sprintf("harness: ill-typed map entry %T:%T for map[%s]%s", k, e, kt, vt))
